@@ -16,10 +16,11 @@ ASSUMPTIONS = ['only structural well-formedness is judged here (correctness agai
                'scanner cursors are observed only through reported ranges']
 HTML_ALPHA = ['<', '>', '/', 'a', 'b', '=', '"', "'", ' ', '!', '-']
 HTML_TOK = ['<a', '<b', '</a>', '</b>', '>', '/>', ' x=', '"', "'", '<!--', '-->', '<br', '<script>', '</script>', '<![CDATA[', ']]>',
-            '<?', '?>', 't', ' ', '{', '}', '\\', '</br>', '<br/>', '<script a="', '">']
+            '<?', '?>', 't', ' ', '{', '}', '\\', '</br>', '<br/>', '<script a="', '">', '<script', ' type']
 CSS_ALPHA = ['a', ':', ';', '{', '}', '"', '\\', ' ', '(', '/', '*', ')']
 CSS_TOK = ['a', 'b:', ' ', ';', '{', '}', ':', '"', "'", '\\', '(', ')', '/*', '*/', '\n', '@m', '::', '$v', 'url(', ',', '-']
-BOUNDS = {'quick': {'char_len': 4, 'tok_len': 3, 'sampled_len': 5, 'stride': 8}, 'thorough': {'char_len': 6, 'tok_len': 4, 'sampled_len': 7, 'stride': 40}}
+BOUNDS = {'quick': {'char_len': 4, 'tok_len': 3, 'sampled_len': 5, 'stride': 8, 'tok_sampled_len': 4, 'tok_stride': 40},
+          'thorough': {'char_len': 6, 'tok_len': 3, 'sampled_len': 7, 'stride': 40, 'tok_sampled_len': 4, 'tok_stride': 2}}
 FLOORS = {'quick': {'html:enum': 25000, 'css:enum': 30000, 'html:enum-sampled': 15000, 'css:enum-sampled': 25000, 'html:mutation': 3000, 'css:mutation': 3000, 'html:random': 300, 'css:random': 300},
           'thorough': {'html:enum': 1900000, 'css:enum': 3000000, 'html:enum-sampled': 400000, 'css:enum-sampled': 800000, 'html:mutation': 80000, 'css:mutation': 80000, 'html:random': 10000, 'css:random': 10000}}
 REQUIRED_MONITORS = ['oracle:html-scan-ranges', 'oracle:html-match-structure', 'oracle:css-scan-ranges', 'oracle:css-match-ranges',
@@ -42,7 +43,8 @@ def shards(tier, seed):
         for lang in ('html', 'css'):
             out.append({'kind': 'enum', 'lang': lang, 'alpha': 'char', 'part': p, 'nparts': n, 'maxlen': b['char_len'],
                         'sampled_len': b['sampled_len'], 'stride': b['stride'], 'offset': seed % b['stride']})
-            out.append({'kind': 'enum', 'lang': lang, 'alpha': 'tok', 'part': p, 'nparts': n, 'maxlen': b['tok_len']})
+            out.append({'kind': 'enum', 'lang': lang, 'alpha': 'tok', 'part': p, 'nparts': n, 'maxlen': b['tok_len'],
+                        'sampled_len': b['tok_sampled_len'], 'stride': b['tok_stride'], 'offset': seed % b['tok_stride']})
     for p in range(8 if tier == 'quick' else 16):
         out.append({'kind': 'mutation', 'ndocs': 3 if tier == 'quick' else 40})
     return out
